@@ -362,6 +362,48 @@ def r9(ctx, facts):
         raise AnchorLost("no caller of write_encoded_partition_key found")
 
 
+def r10(ctx, facts):
+    r = ctx.rule("R10", "the finalisation mixes the WHOLE key length into both halves (h1 ^= len, h2 ^= len), not the length of the buffered tail", floor=2)
+    b = facts.one(r"^<%s as scylla::routing::partitioner::PartitionerHasher>::finish$" % H)
+
+    def chain(op, ops, depth=0):
+        """'len' if the operand is the total length through copies / casts / the Wrapping wrapper / arithmetic (recorded in ops);
+        None if it is something else (an accumulator assigned in several places, a byte of the buffer, ...)"""
+        if depth > 10 or op[0] not in ("c", "m"):
+            return None
+        pl = op[1]
+        if any(isinstance(e, list) and e[0] == "f" and e[2] == "total_len" for e in pl[1]):
+            return "len"
+        sd = b.single_def(pl[0])
+        if not sd or sd[0] != "stmt":
+            return None
+        rv = sd[3]
+        if rv[0] == "use":
+            return chain(rv[1], ops, depth + 1)
+        if rv[0] == "cast":
+            return chain(rv[2], ops, depth + 1)
+        if rv[0] == "agg" and len(rv[2]) == 1:
+            return chain(rv[2][0], ops, depth + 1)
+        if rv[0] == "bin":
+            for o in (rv[2], rv[3]):
+                if chain(o, ops, depth + 1) == "len":
+                    ops.append(rv[1])
+                    return "len"
+        return None
+    pure = 0
+    for bb, c in b.calls():
+        if bb not in b.live_blocks or not (c.decl or "").endswith(("BitXorAssign::bitxor_assign", "BitXor::bitxor")) or len(c.args) != 2:
+            continue
+        ops = []
+        if chain(c.args[1], ops) != "len":
+            continue
+        good = not ops
+        pure += 1 if good else 0
+        r.instance("length-xor-is-the-whole-length", good,
+                   "the length xored into the hash halves goes through %s first: MurmurHash3 finalises with the total number of bytes hashed; with `total_len %% 16` every key of 16 bytes or more gets a wrong token" % ops, c.span)
+    r.instance("both-halves-get-the-length", pure >= 2, "expected `h1 ^= total_len` and `h2 ^= total_len` in finish(), found %d such xors" % pure, b.span)
+
+
 # the only place a statement handle may start with the default partitioner: fresh from PREPARE (the session then sets it from metadata)
 FRESH_HANDLE = ("PreparedStatement::new",)
 
@@ -418,7 +460,7 @@ def path_last_name(place):
 
 def check(ctx):
     facts = inline_view(ctx.facts("default"))
-    for fn in (r1, r2, r3, r4, r5, r6, r7, r8, r9):
+    for fn in (r1, r2, r3, r4, r5, r6, r7, r8, r9, r10):
         try:
             fn(ctx, facts)
         except AnchorLost as ex:
